@@ -7,7 +7,7 @@ from pyvc import verify
 from contracts import imagesadd as IA
 from .common import ctx, std, contract_samples
 
-KEYS = ["meth:images.Images.add:0", "meth:images.Images.add:1", "lemma:images.identify_image"]
+KEYS = ["meth:images.Images.add:any", "meth:images.Images.add:0", "meth:images.Images.add:1", "lemma:images.identify_image"]
 
 HIST_SCRIPT = r'''
 import productmd.images as I
@@ -58,11 +58,12 @@ def check(run):
                        "try:\n m.add('Server','x86_64',mk('a')); m.add('Server','x86_64',mk('b'))\nexcept ValueError: NOT_REPRODUCED('refused')\n"
                        "s=m.dumps()\ntry:\n I.Images().loads(s)\nexcept ValueError as e: REPRODUCED('two images with equal identity and different checksums were "
                        "accepted by add(); the written manifest is rejected on load: %s' % e)\nREPRODUCED('identity clash accepted')\n")
-    contract_samples(run, c, ["meth:images.Images.add:1"], limit=2500 if run.tier == "quick" else None)
+    contract_samples(run, c, ["meth:images.Images.add:1", "meth:images.Images.add:any"], limit=2500 if run.tier == "quick" else None)
     histories(run, c)
     loads(run, c)
-    run.note("Images.add is proved for manifests holding 0, 1 (quick) and 2 (thorough) images at symbolic cells with symbolic attributes: bounded "
-             "in the NUMBER of existing images; the scan over more images is the same loop body (bounded histories below)")
+    run.note("Images.add is proved on a manifest of ARBITRARY size (any number of variants, arches and images per cell; witness rule of "
+             "pyvc/anycoll.py for the three nested scan loops, every iteration order) and, as a cross-check of that rule, on manifests holding "
+             "0, 1 (quick) and 2 (thorough) concrete cells with symbolic attributes")
     run.note("history quantifier: induction over add/load with Uniq as invariant (identity_uniqueness_preserved + every_other_cell_unchanged); "
              "load routes every entry through add (AST clause)")
 
